@@ -1131,3 +1131,41 @@ def exit_avoiding(cfg, defs: Defs, avoid: set[int], env: dict[str, bool], *, nor
             prev[y] = x
             todo.append(y)
     return None
+
+
+def late_bound_closures(fn_node: ast.AST) -> list[tuple[ast.AST, str, ast.AST]]:
+    """Closures (lambda / nested def) created in a loop body that read the loop variable as a FREE variable and outlive the
+    iteration: [(closure, variable, loop)].  Python binds free variables late - every such closure sees the value of the last
+    iteration.  Not reported: the variable bound through a default (`lambda x, f=f: ...`), closures handed as `key=` to
+    sorted/min/max or as the function of an immediately consumed map/filter (they are called before the variable changes)."""
+    out: list[tuple[ast.AST, str, ast.AST]] = []
+    par = {id(c): p for p in ast.walk(fn_node) for c in ast.iter_child_nodes(p)}
+    for loop in ast.walk(fn_node):
+        if not isinstance(loop, (ast.For, ast.AsyncFor, ast.While)):
+            continue
+        targets = {x.id for x in ast.walk(loop.target) if isinstance(x, ast.Name)} if not isinstance(loop, ast.While) else set()
+        # names assigned in the body change per iteration as well
+        for st in loop.body:
+            for a in ast.walk(st):
+                if isinstance(a, ast.Assign):
+                    targets |= {t.id for t in a.targets if isinstance(t, ast.Name)}
+        for st in loop.body:
+            for cl in ast.walk(st):
+                if not isinstance(cl, (ast.Lambda, ast.FunctionDef, ast.AsyncFunctionDef)):
+                    continue
+                a = cl.args
+                own = {x.arg for x in [*a.posonlyargs, *a.args, *a.kwonlyargs, *([a.vararg] if a.vararg else []), *([a.kwarg] if a.kwarg else [])]}
+                body = [cl.body] if isinstance(cl, ast.Lambda) else cl.body
+                local = {t.id for b in body for s_ in ast.walk(b) if isinstance(s_, ast.Assign) for t in s_.targets if isinstance(t, ast.Name)}
+                free = {x.id for b in body for x in ast.walk(b) if isinstance(x, ast.Name) and isinstance(x.ctx, ast.Load)} - own - local
+                hit = sorted(free & targets)
+                if not hit:
+                    continue
+                p = par.get(id(cl))
+                if isinstance(p, ast.keyword) and p.arg == "key":
+                    continue
+                if isinstance(p, ast.Call) and isinstance(p.func, ast.Name) and p.func.id in ("map", "filter", "sorted", "min", "max", "reduce", "any", "all") and cl in p.args:
+                    continue
+                # the variable must really change while the closure is alive: the closure is stored / returned / accumulated
+                out.append((cl, hit[0], loop))
+    return out
